@@ -184,6 +184,10 @@ func Harness_app_pipeline() {
 		}
 		days = append(days, raw)
 	}
+	if verifBound("crlf", 0) == 1 {
+		// the same files saved with CRLF line endings
+		logText, dbText = verifReplaceAll(logText, "\n", "\r\n"), verifReplaceAll(dbText, "\n", "\r\n")
+	}
 	logName, dbName := verifFile("log", logText), verifFile("db", dbText)
 	base := []string{"--logfile=" + logName, "--database=" + dbName, "--no-color"}
 	run := func(tag string, args ...string) (string, bool) {
